@@ -593,6 +593,32 @@ pub fn run_c09(tier: Tier) -> Report {
             }
         }
     }
+    // the left operand is a LOCAL variable (or a path into one) with a known constant and the right operand
+    // re-assigns that same variable: the decision must be taken from the value BEFORE the right operand runs
+    for init in [m::lit_b(false), m::lit_b(true), m::null()] {
+        for op in ["||", "&&"] {
+            for newv in [m::lit_b(true), m::lit_b(false), m::null(), m::lit_i(1)] {
+                progs.push(vec![
+                    m::set(m::var_t("v"), init.clone()),
+                    m::set(m::var_t("x"), m::bin(op, m::var("v"), b(vec![m::set(m::var_t("v"), newv.clone()), m::marker(3), m::lit_b(true)]))),
+                    m::set(evt("v_after"), m::var("v")),
+                    m::marker(2),
+                ]);
+                progs.push(vec![
+                    m::set(m::var_t("st"), P::Obj(vec![("done".into(), init.clone())])),
+                    m::set(m::var_t("x"), m::bin(op, P::Var("st".into(), vec![f_("done")]), b(vec![m::set(Tgt::Var("st".into(), vec![f_("done")]), newv.clone()), P::Del(evt("k")), m::lit_b(true)]))),
+                    m::set(evt("st_after"), m::var("st")),
+                    m::marker(2),
+                ]);
+                // the same inside an if predicate
+                progs.push(vec![
+                    m::set(m::var_t("v"), init.clone()),
+                    P::If(vec![(m::bin(op, m::bin("==", m::var("v"), m::lit_b(true)), b(vec![m::set(m::var_t("v"), newv.clone()), m::marker(3), m::lit_b(true)])), vec![m::marker(4)])], Some(vec![m::marker(5)])),
+                    m::set(evt("v_after"), m::var("v")),
+                ]);
+            }
+        }
+    }
     // conditionals
     let preds: Vec<P> = vec![
         m::lit_b(true),
